@@ -286,7 +286,7 @@ def run_harness(cases, timeout=1800, shards=8):
         t.join()
     per = []
     for i, ch in enumerate(chunks):
-        lines = [l for l in (results[i] or "").splitlines() if l.strip()]
+        lines = [l[6:] for l in (results[i] or "").splitlines() if l.startswith("@@VH@@")]
         rs = []
         for j in range(len(ch)):
             if j < len(lines):
